@@ -4,6 +4,7 @@ package lab
 
 import (
 	"bufio"
+	"errors"
 	"fmt"
 	"io"
 	"net"
@@ -29,6 +30,9 @@ type C20Case struct {
 	Dir        string `json:"dir"`         // download | upload | tunnel-download | tunnel-upload
 	Conns      int    `json:"conns"`
 	ExtraMs    int    `json:"extra_ms"` // bytes above the burst, expressed as transfer time at the limit
+	// WindowMs > 0: a limit so low that a transfer exceeding the burst by more than the tolerance cannot be waited
+	// for: burst + 512 KiB are offered, the clients watch for this long and leave; only what passed is judged.
+	WindowMs int `json:"window_ms,omitempty"`
 }
 
 func genC20(t *rapid.T) C20Case {
@@ -46,6 +50,11 @@ func genC20(t *rapid.T) C20Case {
 			c.ReadLimit = 64 << 10
 		}
 	default:
+		if rapid.IntRange(0, 3).Draw(t, "lowrate") == 0 {
+			// limits below the size of one I/O call of the proxy (4 KiB buffered writes, 32 KiB tunnel copies)
+			rate = rapid.SampledFrom([]int{2 << 10, 8 << 10, 24 << 10, 100 << 10}).Draw(t, "lowratev")
+			c.WindowMs = 1200
+		}
 		if down {
 			c.ReadLimit, c.WriteLimit = rate, other
 		} else {
@@ -198,6 +207,10 @@ func runC20once(c C20Case) (fails []vstat.Failure) {
 		extra = limit / 1000 * c.ExtraMs
 	}
 	total := c20Burst + extra
+	windowed := c.WindowMs > 0 && limit > 0
+	if windowed {
+		total = c20Burst + c.Conns*c20Slack + 512<<10
+	}
 	per := total / c.Conns
 	host := o.peer.Addr
 
@@ -225,6 +238,10 @@ func runC20once(c C20Case) (fails []vstat.Failure) {
 			}
 			defer tc.Close()
 			tc.SetDeadline(time.Now().Add(40 * time.Second))
+			timedOut := func(err error) bool {
+				var ne net.Error
+				return windowed && errors.As(err, &ne) && ne.Timeout()
+			}
 			br := bufio.NewReaderSize(tc, 64<<10)
 			abs := "http://" + host
 			if tunnel {
@@ -244,6 +261,9 @@ func runC20once(c C20Case) (fails []vstat.Failure) {
 				}
 				buf := make([]byte, 64<<10)
 				exp := make([]byte, 64<<10)
+				if windowed {
+					tc.SetDeadline(t0.Add(time.Duration(c.WindowMs) * time.Millisecond))
+				}
 				for r.n < per {
 					k, err := br.Read(buf[:min(len(buf), per-r.n)])
 					if k > 0 {
@@ -257,7 +277,9 @@ func runC20once(c C20Case) (fails []vstat.Failure) {
 						r.samples = append(r.samples, c20Sample{time.Now(), k})
 					}
 					if err != nil {
-						r.err = fmt.Errorf("download body after %d of %d bytes: %w", r.n, per, err)
+						if !timedOut(err) {
+							r.err = fmt.Errorf("download body after %d of %d bytes: %w", r.n, per, err)
+						}
 						return
 					}
 				}
@@ -266,16 +288,33 @@ func runC20once(c C20Case) (fails []vstat.Failure) {
 			// upload
 			fmt.Fprintf(tc, "POST %s/ul HTTP/1.1\r\nHost: %s\r\nX-Vid: %s\r\nX-Pid: %d\r\nContent-Length: %d\r\n\r\n", abs, host, vid, pid, per)
 			buf := make([]byte, 64<<10)
+			if windowed {
+				tc.SetDeadline(t0.Add(time.Duration(c.WindowMs) * time.Millisecond))
+			}
+			collect := func() {
+				o.mu.Lock()
+				r.samples = append([]c20Sample(nil), o.up[vid]...)
+				delete(o.up, vid)
+				o.mu.Unlock()
+			}
 			for off := 0; off < per; {
 				k := min(len(buf), per-off)
 				FillPayload(buf[:k], pid, off)
 				if _, err := tc.Write(buf[:k]); err != nil {
+					if timedOut(err) {
+						collect()
+						return
+					}
 					r.err = fmt.Errorf("upload after %d of %d bytes: %w", off, per, err)
 					return
 				}
 				off += k
 			}
 			m, err := ReadResponse(br, "POST")
+			if err != nil && timedOut(err) {
+				collect()
+				return
+			}
 			if err != nil || m.Status != 200 {
 				r.err = fmt.Errorf("upload reply: %v", err)
 				return
@@ -326,6 +365,9 @@ func runC20once(c C20Case) (fails []vstat.Failure) {
 
 func classifyC20(c C20Case) (bool, string, []string) {
 	cls := []string{"dir-" + c.Dir, fmt.Sprintf("conns=%d", c.Conns)}
+	if c.WindowMs > 0 {
+		cls = append(cls, "limit-below-one-io-call")
+	}
 	down := strings.HasSuffix(c.Dir, "download")
 	lim := c.WriteLimit
 	oth := c.ReadLimit
